@@ -132,7 +132,8 @@ class SourceModel:
                 src = p.read_text()
             texts[rel] = src
         for rel, src in self.overlay.items():
-            if rel.endswith(".py") and rel not in texts:
+            # new modules of the package only: an edit of examples/ or docs/ is not part of the analysed program
+            if rel.endswith(".py") and rel not in texts and rel.startswith(PKG.rstrip("/") + "/"):
                 texts[rel] = src
         # private functions that were only renamed are analysed under the name the rules know (sa/alpha.py)
         self.renamed: dict[str, str] = {}
